@@ -30,6 +30,8 @@ class Cloning:
         data_cpy[k] = gfapy.OrientedLine(v.line, v.orient)
       elif isinstance(v, list) or isinstance(v, dict) or isinstance(v, str):
         data_cpy[k] = deepcopy(v)
+      elif isinstance(v, gfapy.LastPos):
+        data_cpy[k] = gfapy.LastPos(v.value, valid = True)
       else:
         data_cpy[k] = v
     cpy = self.__class__(data_cpy, vlevel = self.vlevel,
